@@ -402,9 +402,6 @@ class MultiTypeMap(dict):
             else:
                 raise self.key_error(real_tup, ())
 
-        if not obj_t_tup and self.empty is not MISSING:
-            return self.empty[0]
-
         self.resolve(obj_t_tup)
         if obj_t_tup in self.errors:
             raise self.errors[obj_t_tup]
